@@ -152,10 +152,16 @@ def run_case(case, ctx):
         # generalized EM: calibration of the final selection (scores taken from the module's own scoring)
         ds = rng.rand(n) * 2 + 0.1
         t = 2 * math.log(n / 0.5) / eps
-        scores = mech_mod.generalized_em_scores(q.copy(), ds.copy(), t)
-        M.generalized_exponential_mechanism(q.copy(), ds.copy(), eps, base_measure=None if base is None else blog.copy())
-        judge_p(ctx, 'em_probabilities', 'generalized_exponential_mechanism(array)', rec.choices[-1][1],
-                ref_probs(scores, eps / 2.0, blog, mp), smax(eps / 2.0, scores))
+        # the harness's own scores, over all pairs (no Pareto pruning): -max_j ((t*ds_i - q_i) - (t*ds_j - q_j)) / (ds_i + ds_j)
+        r_ = t * ds - q
+        scores = -((r_[:, None] - r_[None, :]) / (ds[:, None] + ds[None, :])).max(axis=1)
+        held_q, held_ds = q.copy(), ds.copy()      # the caller's arrays, handed in twice
+        for nth in ('', ', second call with the same array objects'):
+            M.generalized_exponential_mechanism(held_q, held_ds, eps, base_measure=None if base is None else blog.copy())
+            judge_p(ctx, 'em_probabilities', 'generalized_exponential_mechanism(array)' + nth, rec.choices[-1][1],
+                    ref_probs(scores, eps / 2.0, blog, mp), smax(eps / 2.0, scores))
+        ctx.check(np.array_equal(held_q, q) and np.array_equal(held_ds, ds), 'em_probabilities', 'caller_array_modified',
+                  'generalized_exponential_mechanism changed the quality / sensitivity arrays it was given')
         dsd = dict(zip(keys, ds))
         dsd = {k: dsd[k] for k in [keys[i] for i in rng.permutation(n)]}
         got = M.generalized_exponential_mechanism(dict(qd), dsd, eps, base_measure=None if bd is None else dict(bd))
